@@ -40,7 +40,8 @@ def main():
                 continue
             tests = sh(f"PYTHONPATH={wt} /venv/bin/python -m pytest -q -p no:cacheprovider 2>&1 | tail -1", cwd=wt)
             d = sh(f"PYTHONPATH={wt} /venv/bin/python {demo}", cwd="/tmp")
-            rebased = sh("git diff -- nsl nslc.py nslr.py", cwd=wt).stdout
+            os.makedirs(f"{VERIF}/seeded/{prop}-{m}", exist_ok=True)
+            sh(f"git diff -- nsl nslc.py nslr.py > /tmp/mut/rebased.diff", cwd=wt)      # binary-safe (CRLF files)
             sh("git checkout -- . ; git clean -fdq", cwd=wt)
             meta["tests_with_change"] = tests.stdout.strip()
             meta["demo_with_change_exit"] = d.returncode
@@ -49,7 +50,7 @@ def main():
             meta["confirmed"] = confirmed
             outdir = f"{VERIF}/seeded/{prop}-{m}"
             os.makedirs(outdir, exist_ok=True)
-            open(f"{outdir}/patch.diff", "w").write(rebased)
+            shutil.copy("/tmp/mut/rebased.diff", f"{outdir}/patch.diff")
             shutil.copy(demo, f"{outdir}/demo.py")
             notes = f"{src}/notes.md"
             if os.path.exists(notes):
